@@ -185,6 +185,197 @@ static uint64_t run_matrix(const QMat& M, Ctx& c)
    return h;
 }
 
+// ---- part A2: structured sparse matrices of dimension 8..40 ------------------------------------------------------
+// The tiny matrices of part A never fill the column / row files of the working matrix, so the relocation and compaction
+// code of the rational factorisation (remaxCol / remaxRow / packColumns / packRows) is dead for them.  This family is
+// built to cause fill-in: diagonal + k pseudo-random off-diagonals per row, band + far entries, arrow + random, dense
+// bump; values are small rationals from an integer LCG; a member is reproducible from (pattern, n, k, singular, seed)
+// and the family is the complete product of the stated grid.  Oracle: exact residuals A x = b / y^T A = b^T (the
+// solution of a nonsingular system is unique, so a zero residual is a complete check), det = 0 <=> SINGULAR.
+struct BigSpec
+{
+   int pattern = 0, n = 8, k = 3, singular = 0, seed = 0;
+   std::string str() const { char b[80]; snprintf(b, sizeof b, "B:%d:%d:%d:%d:%d", pattern, n, k, singular, seed); return b; }
+   static bool parse(const std::string& s, BigSpec& p) { return sscanf(s.c_str(), "B:%d:%d:%d:%d:%d", &p.pattern, &p.n, &p.k, &p.singular, &p.seed) == 5; }
+};
+struct Lcg11
+{
+   uint64_t s;
+   explicit Lcg11(uint64_t seed) : s(seed * 0x9E3779B97F4A7C15ULL + 0x2545F4914F6CDD1DULL) { next(); next(); }
+   uint32_t next() { s = s * 6364136223846793005ULL + 1442695040888963407ULL; return (uint32_t)(s >> 33); }
+   int upto(int k) { return (int)(next() % (uint32_t)k); }
+};
+static QMat big_matrix(const BigSpec& sp)
+{
+   int n = sp.n;
+   static const long VN[] = {1, -1, 2, -3, 1, -5, 7, 3}, VD[] = {1, 1, 1, 1, 3, 2, 4, 1};
+   Lcg11 g((uint64_t)sp.seed * 7919 + sp.pattern * 101 + sp.n * 13 + sp.k);
+   auto val = [&]() { int t = g.upto(8); return qq(VN[t], VD[t]); };
+   QMat M(n, std::vector<Q>(n, Q(0)));
+   for(int i = 0; i < n; ++i) M[i][i] = val();
+   switch(sp.pattern)
+   {
+   case 0:     // diagonal + k off-diagonals per row
+      for(int i = 0; i < n; ++i) for(int t = 0; t < sp.k; ++t) { int j = g.upto(n); if(j != i) M[i][j] = val(); }
+      break;
+   case 1:     // band of half-width 2 + k far entries per 4 rows
+      for(int i = 0; i < n; ++i)
+      {
+         for(int d = -2; d <= 2; ++d) if(d && i + d >= 0 && i + d < n) M[i][i + d] = val();
+         if(i % 4 == 0) for(int t = 0; t < sp.k; ++t) { int j = g.upto(n); if(j != i) M[i][j] = val(); }
+      }
+      break;
+   case 2:     // arrow (dense first row and column) + k random entries per 3 rows
+      for(int i = 1; i < n; ++i) { M[0][i] = val(); M[i][0] = val(); }
+      for(int i = 1; i < n; ++i) if(i % 3 == 0) for(int t = 0; t < sp.k; ++t) { int j = g.upto(n); if(j != i) M[i][j] = val(); }
+      break;
+   default:    // dense bump of size min(n, 2k) at a pseudo-random offset inside a sparse matrix
+   {
+      int b = std::min(n, 2 * sp.k), off = g.upto(n - b + 1);
+      for(int i = 0; i < b; ++i) for(int j = 0; j < b; ++j) M[off + i][off + j] = val();
+      for(int i = 0; i < n; ++i) { int j = g.upto(n); if(j != i) M[i][j] = val(); }
+      break;
+   }
+   }
+   if(sp.singular == 1 && n >= 2)
+   {
+      // last column := 2 * column a - 1/3 * column b  (exactly singular)
+      int a = g.upto(n - 1), b = g.upto(n - 1);
+      for(int i = 0; i < n; ++i) M[i][n - 1] = 2 * M[i][a] - qq(1, 3) * M[i][b];
+   }
+   else if(sp.singular == 2 && n >= 2)
+   {
+      int a = g.upto(n - 1);          // duplicate row
+      M[n - 1] = M[a];
+   }
+   return M;
+}
+
+static uint64_t run_big(const BigSpec& sp, Ctx& c)
+{
+   QMat M = big_matrix(sp);
+   int n = sp.n;
+   std::vector<DSVectorRational> cols(n);
+   std::vector<const SVectorRational*> ptrs;
+   int nnz = 0;
+   for(int j = 0; j < n; ++j)
+   {
+      cols[j] = DSVectorRational(n + 1);
+      for(int i = 0; i < n; ++i) if(M[i][j] != 0) { cols[j].add(i, to_spx(M[i][j])); ++nnz; }
+   }
+   for(int j = 0; j < n; ++j) ptrs.push_back(&cols[j]);
+   SLUFactorRational lu;
+   auto st = lu.load(ptrs.data(), n);
+   Q det = qdet(M);
+   c.count("big_matrices");
+   std::string cs = sp.str();
+   {
+      std::string ar = take_asan_report();
+      if(!ar.empty()) c.violation(ar + "@load,big", cs, "AddressSanitizer report during load()");
+   }
+   if(det == 0)
+   {
+      c.count("big_singular");
+      if(st != SLinSolverRational::SINGULAR) c.violation("singular-not-reported@big", cs, "load() returned " + std::to_string((int)st) + " for det 0");
+      return 3;
+   }
+   if(st != SLinSolverRational::OK)
+   {
+      c.violation("nonsingular-rejected@big", cs, "load() returned " + std::to_string((int)st) + " for det != 0");
+      return 5;
+   }
+   c.count("big_nonsingular");
+   c.count("big_nonzeros", nnz);
+   // fill-in observed in the factor (read from the private column file; observation only)
+   c.count("big_colfile_used", lu.u.col.used);
+   if(lu.u.col.size > std::max(100, 5 * nnz)) c.count("big_colfile_grew_beyond_initial_size");
+   if(c.wantSample()) c.sample("{\"big_matrix\":" + jstr(cs) + ",\"nonzeros\":" + std::to_string(nnz) + ",\"colfile_used\":" + std::to_string(lu.u.col.used) + "}");
+   std::vector<std::vector<Q>> R;
+   { std::vector<Q> e(n, Q(0)); e[0] = 1; R.push_back(e); }
+   { std::vector<Q> e(n, Q(0)); e[n - 1] = qq(-2, 3); e[n / 2] += 1; R.push_back(e); }
+   { std::vector<Q> dn(n); for(int k = 0; k < n; ++k) dn[k] = qq(k + 1, 7); R.push_back(dn); }
+   int nR = 3;
+   uint64_t h = 1;
+   static const int ORDER2[NRV] = {5, 1, 7, 0, 8, 2, 6, 3, 4};
+   auto residual_ok = [&](bool left, const std::vector<Q>& z, const std::vector<Q>& b)
+   {
+      for(int i = 0; i < n; ++i)
+      {
+         Q t = 0;
+         if(!left) { for(int j = 0; j < n; ++j) if(M[i][j] != 0) t += M[i][j] * z[j]; }
+         else { for(int j = 0; j < n; ++j) if(M[j][i] != 0) t += M[j][i] * z[j]; }
+         if(t != b[i]) return false;
+      }
+      return true;
+   };
+   for(int pass = 0; pass < 2; ++pass)
+   for(int vi = 0; vi < NRV; ++vi)
+   {
+      int v = pass ? ORDER2[vi] : vi;
+      set_sub(v);
+      bool left = v >= 5;
+      for(int k = 0; k < nR; ++k)
+      {
+         if(pass == 1 && k != 1) continue;
+         const std::vector<Q>& b1 = R[k], &b2 = R[(k + 1) % nR], &b3 = R[(k + 2) % nR];
+         if(v == 2 || v == 3 || v == 4) lu.load(ptrs.data(), n);
+         VectorRational vb(n), vx(n), vy(n), vz(n);
+         for(int i = 0; i < n; ++i) vb[i] = to_spx(b1[i]);
+         DSVectorRational sb = dsvq(b1);
+         SSVectorRational x(n), d(n), e(n);
+         x.clear();
+         d = dsvq(b2);
+         e = dsvq(b3);
+         const int SLACK = 4 * n + 16, SENT = -123456789;
+         SSVectorRational* guarded[3] = {&x, &d, &e};
+         for(auto* gq : guarded) { gq->setMax(n + SLACK); for(int t = n; t < n + SLACK; ++t) gq->idx[t] = SENT; }
+         int nout = 1;
+         std::vector<Q> o1(n), o2(n), o3(n);
+         auto get = [&](const VectorRational & w, std::vector<Q>& o) { for(int i = 0; i < n; ++i) o[i] = from_spx(w[i]); };
+         switch(v)
+         {
+         case 0: lu.solveRight(vx, vb); get(vx, o1); break;
+         case 1: lu.solveRight(x, sb); get(x, o1); break;
+         case 2: lu.solveRight4update(x, sb); get(x, o1); break;
+         case 3: lu.solve2right4update(x, vy, sb, d); get(x, o1); get(vy, o2); nout = 2; break;
+         case 4: lu.solve3right4update(x, vy, vz, sb, d, e); get(x, o1); get(vy, o2); get(vz, o3); nout = 3; break;
+         case 5: lu.solveLeft(vx, vb); get(vx, o1); break;
+         case 6: lu.solveLeft(x, sb); get(x, o1); break;
+         case 7: lu.solveLeft(x, vy, sb, d); get(x, o1); get(vy, o2); nout = 2; break;
+         case 8: lu.solveLeft(x, vy, vz, sb, d, e); get(x, o1); get(vy, o2); get(vz, o3); nout = 3; break;
+         }
+         c.count("solves");
+         c.count("big_solves");
+         {
+            static const char* GNAME[3] = {"result", "rhs2", "rhs3"};
+            for(int gi = 0; gi < 3; ++gi)
+            {
+               int written = 0;
+               for(int t = n; t < n + SLACK; ++t) if(guarded[gi]->idx[t] != SENT) ++written;
+               if(written)
+                  c.violation(std::string("index-array-overrun:") + GNAME[gi] + "@variant=" + RVARIANT[v], cs + ";variant=" + std::to_string(v) + ";rhs=" + std::to_string(k),
+                              std::to_string(written) + " entries written behind the " + std::to_string(n) + " entries the index array of a dimension-" + std::to_string(n) + " vector has");
+            }
+         }
+         {
+            std::string ar = take_asan_report();
+            if(!ar.empty()) c.violation(ar + "@variant=" + RVARIANT[v], cs + ";variant=" + std::to_string(v) + ";rhs=" + std::to_string(k), "AddressSanitizer report during this solve");
+         }
+         const std::vector<Q>* got[3] = {&o1, &o2, &o3};
+         const std::vector<Q>* rhs[3] = {&b1, &b2, &b3};
+         for(int t = 0; t < nout; ++t)
+            if(!residual_ok(left, *got[t], *rhs[t]))
+            {
+               c.violation(std::string("inexact-solution:") + RVARIANT[v] + ",big", cs + ";variant=" + std::to_string(v) + ";rhs=" + std::to_string(k),
+                           "output " + std::to_string(t) + ": exact residual of the returned vector is not zero (n=" + std::to_string(n) + ", " + std::to_string(nnz) + " nonzeros)");
+               h = h * 31 + 7;
+               break;
+            }
+      }
+   }
+   return h;
+}
+
 // ---- part B: SoPlex-level rational basis inverse -------------------------------------------------------
 struct QLP     // exact model of the LP held by SoPlex (only what the basis matrix needs, plus what the ops change)
 {
@@ -356,6 +547,9 @@ int main(int argc, char** argv)
          int op = atoi(cs.c_str() + h + 1);
          return replay_case([&](Ctx & c) { run_lp(t, op, c); });
       }
+      BigSpec bsp;
+      if(cs.compare(0, 2, "B:") == 0 && BigSpec::parse(cs.substr(0, cs.find(';')), bsp))
+         return replay_case([&](Ctx & c) { run_big(bsp, c); });
       QMat M = qmat_parse(cs.substr(0, cs.find(';')));
       return replay_case([&](Ctx & c) { run_matrix(M, c); });
    }
@@ -396,6 +590,24 @@ int main(int argc, char** argv)
          if(nz > 7 || idx % thin) return 0;
          return run_matrix(M, c);
       }, [&](uint64_t idx, uint64_t) { return qmat_str(matOf(idx, 4, A3)); }, o, sfx);
+   }
+   {
+      // part A2: structured sparse matrices, complete grid  pattern(4) x n(8) x k(3) x singular(3) x seeds
+      static const int NS[] = {8, 12, 16, 20, 26, 30, 34, 40}, KS[] = {3, 5, 8};
+      const int seeds = thorough ? 12 : 3;
+      auto specOf = [=](uint64_t idx)
+      {
+         BigSpec b;
+         b.singular = idx % 3; idx /= 3;
+         b.k = KS[idx % 3]; idx /= 3;
+         b.n = NS[idx % 8]; idx /= 8;
+         b.pattern = idx % 4; idx /= 4;
+         b.seed = (int)idx;
+         return b;
+      };
+      rep.phase("structured sparse matrices, dimension 8..40", (uint64_t)3 * 3 * 8 * 4 * seeds, [&](uint64_t idx, int, Ctx & c) { return run_big(specOf(idx), c); },
+      [&](uint64_t idx, uint64_t) { return specOf(idx).str(); }, o, sfx);
+      rep.extra["big_grid"] = jstr("patterns diag+k-offdiagonals / band+far / arrow+random / dense bump; n in {8,12,16,20,26,30,34,40}; k in {3,5,8}; nonsingular, dependent last column, duplicate row; seeds 0.." + std::to_string(seeds - 1));
    }
    // part B
    {
